@@ -345,7 +345,7 @@ def check(repo: Repo, R) -> None:
     # attached clauses: hashed names come from values only (C09.3); address-keyed caches keep their keys alive (C07.4)
     from . import c09, c07
     from .shared import Retag
-    c09.hashed_names(repo, Retag(R, lambda r: rule3, "generated module names contain an address or a salted hash: they differ between processes"))
-    c07.id_keyed_caches(repo, Retag(R, lambda r: "C12.5-address-keyed-caches-pin-their-keys",
+    R.run(c09.hashed_names, repo, Retag(R, lambda r: rule3, "generated module names contain an address or a salted hash: they differ between processes"))
+    R.run(c07.id_keyed_caches, repo, Retag(R, lambda r: "C12.5-address-keyed-caches-pin-their-keys",
                                     "an entry keyed by the address of an object that has been freed is found again by an unrelated object allocated at that address: output depends on allocation history"))
     R.check(ok, rule3, f"{F_PORTREFS}::SetList", sl.site, f"port-reference groups are collected in an insertion-ordered, list-backed container, popped from the front: {ok}", why="groups (and hence implicit signal creation order and names) are visited in hash order")
